@@ -141,10 +141,11 @@ package hsrv
 
 //@ func Server.c2URL(s, r) (u, err)
 //@   locals s r err p p p err p lp err
-//@   props C07
+//@   props C07 C10
 //@   requires tls: r.TLS != nil
 //@   requires listening: s.l.Listener != nil
 //@   ghost pfErr bool = false
+//@   ghost pfe error = nil
 //@   ghost f string = ""
 //@   ghost h string = ""
 //@   ghost a string = ""
@@ -154,13 +155,14 @@ package hsrv
 //@   ghost lpErr bool = false
 //@   ghost joined string = ""
 //@   ghost stage int = 0
-//@   on call http.Request.ParseForm(rr) (e): assert(rr == r && stage == 0, "parse_first"); pfErr = e != nil; stage = 1
+//@   on call http.Request.ParseForm(rr) (e): assert(rr == r && stage == 0, "parse_first"); pfErr = e != nil; pfe = e; stage = 1
 //@   on call url.Values.Get(vals, k) (v): assert(stage == 1 && k == C2Param && vals == r.Form, "form_value_c2"); f = v; stage = 2
 //@   on call http.Header.Get(hd, k) (v): assert(stage == 2 && f == "" && k == C2Param && hd == r.Header, "header_c2_only_if_no_parameter"); h = v; stage = 3
 //@   on call idna.ToASCII(x) (v, e): assert(stage == 3 && h == "" && x == r.Host, "host_only_if_no_header"); a = v; aErr = e != nil; stage = 4
 //@   on call net.SplitHostPort(x) (hh, pp, e): assert(stage == 4 && !aErr && a == "" && x == s.l.Addr().String(), "listen_port_only_for_sni"); lp = pp; lpErr = e != nil; stage = 5
 //@   on call net.JoinHostPort(hh, pp) (v): assert(stage == 5 && !lpErr && hh == r.TLS.ServerName && pp == lp && lp != HTTPSPort, "sni_plus_nondefault_listen_port"); joined = v; stage = 6
 //@   ensures parse_error: imp(pfErr, err != nil)
+//@   ensures{C07,C10} a_parse_failure_is_reported_with_its_cause: imp(pfErr, errors.Is(err, pfe))
 //@   ensures parameter_first: imp(!pfErr && f != "", err == nil && u == f)
 //@   ensures then_header: imp(!pfErr && f == "" && h != "", err == nil && u == h)
 //@   ensures then_host: imp(!pfErr && f == "" && h == "" && stage >= 4 && !aErr && a != "", err == nil && u == a)
@@ -267,7 +269,7 @@ package hsrv
 // Do: the file one-liners show the listener's fingerprint.
 //@ func Server.Do(s, ctx) (err)
 //@   locals s ctx evCh a err eg ectx
-//@   props C05 C20 C04 C12
+//@   props C05 C20 C04 C12 C07 C09 C11
 //@   nosafety
 //@   ghost added bool = false
 //@   ghost removed bool = false
